@@ -452,6 +452,13 @@ def generate(rng, tier):
             depth = 1 if k == 1000 else 3
             add(*build_pair(rng, depth, _PAIR[0], k=k))
     dist["pairs"] = len(cases) // 2
+    # the same failing sessions evaluated by slices (prepare_eval + run_count(budget), wire 77): a failure inside a
+    # later slice must leave the same canonical registers, and the session must answer as the uninterrupted one
+    a_cases = [c for c in cases if c[0] == 74 and (_tag(dec(c)[1]) or ("", 0))[0] == "A"]
+    nsl = min(len(a_cases), 150 if tier == "quick" else 2500)
+    for c in rng.sample(a_cases, nsl):
+        cases.append([77, rng.choice([1, 2, 3, 7, 20, 64])] + c[1:])
+    dist["sliced_variants"] = nsl
     return cases, dist
 
 
@@ -467,7 +474,7 @@ def _tag(forms):
 
 def oracle(case, impl_line):
     head, forms = dec(case)
-    if forms is None or head[0] != 74:
+    if forms is None or head[0] not in (74, 77):
         return None
     if any(w in impl_line for w in ("PANIC", "ABORT", "TIMEOUT")):
         return "panic: an evaluation must return a value or an error (%s)" % impl_line[:80]
@@ -503,6 +510,21 @@ def _pairs(cases):
 
 def cross_oracle(cases, impl_lines):
     out = []
+    # sliced (77) vs uninterrupted (74) evaluation of the same forms: same results, registers and trace lengths
+    whole = {}
+    for i, c in enumerate(cases):
+        if c and c[0] == 74:
+            whole[tuple(c[1:])] = i
+    for i, c in enumerate(cases):
+        if c and c[0] == 77 and tuple(c[2:]) in whole:
+            j = whole[tuple(c[2:])]
+            ra, rb = vmgen.parse74(impl_lines[i]), vmgen.parse74(impl_lines[j])
+            if ra is None or rb is None:
+                continue
+            if ra != rb:
+                k = next((n for n, (x, y) in enumerate(zip(ra, rb)) if x != y), min(len(ra), len(rb)))
+                out.append((i, "sliced-differs: evaluated by slices of %d instructions, form %d answers %r but %r when evaluated without interruption"
+                            % (c[1], k, (ra[k] if k < len(ra) else None), (rb[k] if k < len(rb) else None))))
     for pid, d in sorted(_pairs(cases).items()):
         if "A" not in d or "B" not in d:
             continue
@@ -533,6 +555,8 @@ def cross_oracle(cases, impl_lines):
 
 
 def related(cases, i):
+    if cases[i] and cases[i][0] == 77:
+        return [[74] + list(cases[i][2:])]        # the uninterrupted twin
     _, forms = dec(cases[i])
     t = _tag(forms) if forms else None
     if not t:
